@@ -233,4 +233,368 @@ theorem legacy_opaque_not_serialisable (k : Opq) (s : Str) (n : Str) (f : Str)
     Legacy.encode? (.obj n [(f, .opq k s)] cs xs) = none := by
   simp [Legacy.encode?, Legacy.encodeFields?]
 
+/-! ## constants of nested schema values -/
+
+mutual
+/-- the schema instances a value holds, at any depth (the value itself included) -/
+def subObjs : PyVal → List PyVal
+  | .obj n fs cs xs => .obj n fs cs xs :: subObjsFs fs
+  | .list vs => subObjsL vs
+  | .set vs => subObjsL vs
+  | _ => []
+def subObjsL : List PyVal → List PyVal
+  | [] => []
+  | v :: vs => subObjs v ++ subObjsL vs
+def subObjsFs : List (Str × PyVal) → List PyVal
+  | [] => []
+  | (_, v) :: r => subObjs v ++ subObjsFs r
+end
+
+mutual
+/-- the schema class `m` occurs in the field type (at any depth, the type itself included) -/
+def InTy (m : Ty) : Ty → Prop
+  | .opt t => InTy m t
+  | .ann t => InTy m t
+  | .list t => InTy m t
+  | .set t => InTy m t
+  | .union ts => InTys m ts
+  | .model n e fs cs => m = .model n e fs cs ∨ InFs m fs
+  | _ => False
+def InTys (m : Ty) : List Ty → Prop
+  | [] => False
+  | t :: ts => InTy m t ∨ InTys m ts
+def InFs (m : Ty) : List Field → Prop
+  | [] => False
+  | f :: fs => InF m f ∨ InFs m fs
+def InF (m : Ty) : Field → Prop
+  | .mk _ t _ _ => InTy m t
+end
+
+/-- `w` is what validation against the schema class `m` returned for some input -/
+def DecodedBy (env : Env) (m : Ty) (w : PyVal) : Prop :=
+  ∃ n e fs cs j, m = .model n e fs cs ∧ decode env m j = .ok w
+
+theorem subObjs_of_hashable (v : PyVal) (h : hashable v = true) : subObjs v = [] := by
+  cases v <;> simp [hashable] at h <;> simp [subObjs]
+
+theorem mem_dedup : ∀ (vs : List PyVal) (x : PyVal), x ∈ dedup vs → x ∈ vs
+  | [], x, h => by simp [dedup] at h
+  | v :: vs, x, h => by
+    simp only [dedup, List.mem_cons, List.mem_filter] at h
+    rcases h with h | ⟨h, _⟩
+    · simp [h]
+    · simp [mem_dedup vs x h]
+
+theorem subObjsL_mem (vs : List PyVal) (w : PyVal) :
+    w ∈ subObjsL vs ↔ ∃ v ∈ vs, w ∈ subObjs v := by
+  induction vs with
+  | nil => simp [subObjsL]
+  | cons v vs ih => simp [subObjsL, ih]
+
+theorem allOk_mem {α : Type} : ∀ (l : List (Except Err α)) (vs : List α), allOk l = .ok vs →
+    ∀ v ∈ vs, .ok v ∈ l
+  | [], vs, h, v, hv => by
+    simp [allOk] at h
+    subst h
+    cases hv
+  | .ok a :: r, vs, h, v, hv => by
+    simp only [allOk] at h
+    cases hr : allOk r with
+    | error e => simp [hr, mapOk] at h
+    | ok l =>
+      simp [hr, mapOk] at h
+      subst h
+      simp only [List.mem_cons] at hv
+      rcases hv with rfl | hv
+      · simp
+      · simp [allOk_mem r l hr v hv]
+  | .error e :: r, vs, h, v, hv => by
+    simp only [allOk] at h
+    split at h <;> cases h
+
+
+theorem decodedBy_self (env : Env) (n : Str) (e : Extra) (fs : List Field) (cs : List (Str × Json))
+    (j : Json) (w : PyVal) (h : decode env (.model n e fs cs) j = .ok w) :
+    DecodedBy env (.model n e fs cs) w := ⟨n, e, fs, cs, j, rfl, h⟩
+
+mutual
+/-- every schema instance inside a decoded value is itself the result of validating some input
+against a schema class that the field type mentions -/
+theorem subObjs_decoded (env : Env) : ∀ (t : Ty) (j : Json) (v : PyVal), decode env t j = .ok v →
+    ∀ w ∈ subObjs v, ∃ m, InTy m t ∧ DecodedBy env m w
+  | .bool, j, v, h, w, hw => by
+    cases j <;> simp [decode] at h
+    subst h; simp [subObjs] at hw
+  | .int, j, v, h, w, hw => by
+    cases j <;> simp [decode] at h
+    subst h; simp [subObjs] at hw
+  | .float, j, v, h, w, hw => by
+    cases j <;> simp [decode] at h
+    split at h <;> simp at h
+    subst h; simp [subObjs] at hw
+  | .str, j, v, h, w, hw => by
+    cases j with
+    | str s =>
+      simp only [decode] at h
+      split at h <;> simp at h
+      subst h; simp [subObjs] at hw
+    | _ => simp [decode] at h
+  | .cstr k, j, v, h, w, hw => by
+    cases j with
+    | str s =>
+      simp only [decode] at h
+      split at h <;> simp at h
+      subst h; simp [subObjs] at hw
+    | _ => simp [decode] at h
+  | .opq k, j, v, h, w, hw => by
+    cases j with
+    | str s =>
+      simp only [decode] at h
+      split at h
+      · simp at h
+      · split at h <;> simp at h
+        subst h; simp [subObjs] at hw
+    | _ => simp [decode] at h
+  | .lit vs, j, v, h, w, hw => by
+    simp only [decode, decodeLit] at h
+    split at h <;> simp at h
+    subst h
+    rename_i l _
+    cases l <;> simp [litVal, subObjs] at hw
+  | .opt t, j, v, h, w, hw => by
+    by_cases hj : j = .null
+    · subst hj
+      simp [decode] at h
+      subst h; simp [subObjs] at hw
+    · rw [decode_opt_nonnull env t j hj] at h
+      obtain ⟨m, hm, hd⟩ := subObjs_decoded env t j v h w hw
+      exact ⟨m, by simpa [InTy] using hm, hd⟩
+  | .ann t, j, v, h, w, hw => by
+    simp only [decode] at h
+    obtain ⟨m, hm, hd⟩ := subObjs_decoded env t j v h w hw
+    exact ⟨m, by simpa [InTy] using hm, hd⟩
+  | .union ts, j, v, h, w, hw => by
+    simp only [decode] at h
+    obtain ⟨m, hm, hd⟩ := subObjsU_decoded env ts j v h w hw
+    exact ⟨m, by simpa [InTy] using hm, hd⟩
+  | .list t, j, v, h, w, hw => by
+    cases j <;> simp [decode] at h
+    rename_i xs
+    cases ha : allOk (xs.map (fun x => decode env t x)) with
+    | error e => simp [ha, mapOk] at h
+    | ok vs =>
+      simp [ha, mapOk] at h
+      subst h
+      simp only [subObjs, subObjsL_mem] at hw
+      obtain ⟨x, hx, hwx⟩ := hw
+      have := allOk_mem _ vs ha x hx
+      simp only [List.mem_map] at this
+      obtain ⟨jx, _, hjx⟩ := this
+      obtain ⟨m, hm, hd⟩ := subObjs_decoded env t jx x hjx w hwx
+      exact ⟨m, by simpa [InTy] using hm, hd⟩
+  | .set t, j, v, h, w, hw => by
+    cases j <;> simp [decode] at h
+    rename_i xs
+    cases ha : allOk (xs.map (fun x => decode env t x)) with
+    | error e => simp [ha] at h
+    | ok vs =>
+      simp only [ha, mkSet] at h
+      split at h <;> simp at h
+      subst h
+      simp only [subObjs, subObjsL_mem] at hw
+      obtain ⟨x, hx, hwx⟩ := hw
+      have hx' := mem_dedup vs x hx
+      have := allOk_mem _ vs ha x hx'
+      simp only [List.mem_map] at this
+      obtain ⟨jx, _, hjx⟩ := this
+      obtain ⟨m, hm, hd⟩ := subObjs_decoded env t jx x hjx w hwx
+      exact ⟨m, by simpa [InTy] using hm, hd⟩
+  | .model n e fs cs, j, v, h, w, hw => by
+    obtain ⟨kvs, fvs, xs, _, hf, hv⟩ := decode_model_shape env n e fs cs j v h
+    subst hv
+    simp only [subObjs, List.mem_cons] at hw
+    rcases hw with rfl | hw
+    · exact ⟨_, by simp [InTy], decodedBy_self env n e fs cs j _ h⟩
+    · obtain ⟨m, hm, hd⟩ := subObjsFs_decoded env fs kvs fvs hf w hw
+      exact ⟨m, by simp [InTy, hm], hd⟩
+theorem subObjsU_decoded (env : Env) : ∀ (ts : List Ty) (j : Json) (v : PyVal), decodeUnion env ts j = .ok v →
+    ∀ w ∈ subObjs v, ∃ m, InTys m ts ∧ DecodedBy env m w
+  | [], j, v, h, w, hw => by simp [decodeUnion] at h
+  | t :: ts, j, v, h, w, hw => by
+    simp only [decodeUnion] at h
+    cases hd : decode env t j with
+    | ok v' =>
+      simp [hd] at h
+      subst h
+      obtain ⟨m, hm, hdd⟩ := subObjs_decoded env t j v' hd w hw
+      exact ⟨m, by simp [InTys, hm], hdd⟩
+    | error e =>
+      rw [hd] at h
+      cases e <;> simp at h <;> (
+        obtain ⟨m, hm, hdd⟩ := subObjsU_decoded env ts j v h w hw
+        exact ⟨m, by simp [InTys, hm], hdd⟩)
+theorem subObjsFs_decoded (env : Env) : ∀ (fs : List Field) (kvs : List (Str × Json)) (fvs : List (Str × PyVal)),
+    decodeFields env fs kvs = .ok fvs → ∀ w ∈ subObjsFs fvs, ∃ m, InFs m fs ∧ DecodedBy env m w
+  | [], kvs, fvs, h, w, hw => by
+    simp [decodeFields] at h
+    subst h; simp [subObjsFs] at hw
+  | f :: fs, kvs, fvs, h, w, hw => by
+    simp only [decodeFields] at h
+    cases h1 : decodeField env f kvs with
+    | error e =>
+      rw [h1] at h
+      cases h2 : decodeFields env fs kvs with
+      | ok r => rw [h2] at h; cases h
+      | error e' => rw [h2] at h; cases e' <;> cases h
+    | ok p =>
+      rw [h1] at h
+      cases h2 : decodeFields env fs kvs with
+      | error e' => rw [h2] at h; cases e' <;> cases h
+      | ok r =>
+        rw [h2] at h
+        simp at h
+        subst h
+        obtain ⟨k, pv⟩ := p
+        simp only [subObjsFs, List.mem_append] at hw
+        rcases hw with hw | hw
+        · obtain ⟨m, hm, hd⟩ := subObjsF_decoded env f kvs (k, pv) h1 w hw
+          exact ⟨m, by simp [InFs, hm], hd⟩
+        · obtain ⟨m, hm, hd⟩ := subObjsFs_decoded env fs kvs r h2 w hw
+          exact ⟨m, by simp [InFs, hm], hd⟩
+theorem subObjsF_decoded (env : Env) : ∀ (f : Field) (kvs : List (Str × Json)) (p : Str × PyVal),
+    decodeField env f kvs = .ok p → ∀ w ∈ subObjs p.2, ∃ m, InF m f ∧ DecodedBy env m w
+  | .mk n t req d, kvs, p, h, w, hw => by
+    simp only [decodeField] at h
+    split at h
+    · rename_i j _
+      cases hd : decode env t j with
+      | ok v =>
+        simp [hd, mapOk] at h; subst h
+        obtain ⟨m, hm, hdd⟩ := subObjs_decoded env t j v hd w hw
+        exact ⟨m, by simpa [InF] using hm, hdd⟩
+      | error e => simp [hd, mapOk] at h
+    · split at h
+      · cases h
+      · split at h
+        · simp at h; subst h; simp [subObjs] at hw
+        · rename_i dj
+          cases hd : decode env t dj with
+          | ok v =>
+            simp [hd, mapOk] at h; subst h
+            obtain ⟨m, hm, hdd⟩ := subObjs_decoded env t dj v hd w hw
+            exact ⟨m, by simpa [InF] using hm, hdd⟩
+          | error e => simp [hd, mapOk] at h
+end
+
+
+/-- every schema class the type mentions keeps its field names and its constant keys apart
+(what `add_const_fields` guarantees: a constant replaces a field of the same name) -/
+def ConstsApart (t : Ty) : Prop :=
+  ∀ n e fs cs, InTy (.model n e fs cs) t → ∀ f ∈ fs, hasKey (fieldName f) cs = false
+
+/-- **Constants are forced on output at every depth**: every schema instance held anywhere inside
+a parsed value (nested field, list item, union alternative, default value) is an instance of a
+class the type mentions, carries exactly the declared constants of that class, and its part of
+the dump shows each of them with the constant value. -/
+theorem constants_forced_nested (env : Env) (t : Ty) (j : Json) (v : PyVal)
+    (hap : ConstsApart t) (h : decode env t j = .ok v) :
+    ∀ w ∈ subObjs v, ∃ n e fs cs, InTy (.model n e fs cs) t ∧ (∃ fvs xs, w = .obj n fvs cs xs) ∧
+      ∀ k, hasKey k cs = true → lookup k (dumped w) = lookup k cs := by
+  intro w hw
+  obtain ⟨m, hm, n, e, fs, cs, j', rfl, hd⟩ := subObjs_decoded env t j v h w hw
+  refine ⟨n, e, fs, cs, hm, ?_, constants_forced env n e fs cs j' w (hap n e fs cs hm) hd⟩
+  obtain ⟨_, fvs, xs, _, _, hv⟩ := decode_model_shape env n e fs cs j' w hd
+  exact ⟨fvs, xs, hv⟩
+
+mutual
+/-- the JSON values a JSON value holds, at any depth (the value itself included) -/
+def subJsons : Json → List Json
+  | .arr xs => .arr xs :: subJsonsL xs
+  | .obj kvs => .obj kvs :: subJsonsKv kvs
+  | j => [j]
+def subJsonsL : List Json → List Json
+  | [] => []
+  | x :: r => subJsons x ++ subJsonsL r
+def subJsonsKv : List (Str × Json) → List Json
+  | [] => []
+  | (_, x) :: r => subJsons x ++ subJsonsKv r
+end
+
+theorem subJsonsKv_append (a b : List (Str × Json)) :
+    subJsonsKv (a ++ b) = subJsonsKv a ++ subJsonsKv b := by
+  induction a with
+  | nil => simp [subJsonsKv]
+  | cons p a ih => obtain ⟨k, x⟩ := p; simp [subJsonsKv, ih]
+
+mutual
+/-- … and the dump of a nested instance is the part of the whole dump at its place: nothing on
+the way (lists, sets, `exclude_none`) drops or rewrites it -/
+theorem encode_subObjs : ∀ (v w : PyVal), w ∈ subObjs v → encode w ∈ subJsons (encode v)
+  | .obj n fs cs xs, w, hw => by
+    simp only [subObjs, List.mem_cons] at hw
+    rcases hw with rfl | hw
+    · simp [encode, subJsons]
+    · have := encodeFs_subObjs fs w hw
+      simp [encode, subJsons, subJsonsKv_append, this]
+  | .list vs, w, hw => by
+    simp only [subObjs] at hw
+    have := encodeL_subObjs vs w hw
+    simp [encode, subJsons, this]
+  | .set vs, w, hw => by
+    simp only [subObjs] at hw
+    have := encodeL_subObjs vs w hw
+    simp [encode, subJsons, this]
+  | .none, w, hw => by simp [subObjs] at hw
+  | .bool _, w, hw => by simp [subObjs] at hw
+  | .int _, w, hw => by simp [subObjs] at hw
+  | .float _, w, hw => by simp [subObjs] at hw
+  | .str _, w, hw => by simp [subObjs] at hw
+  | .opq _ _, w, hw => by simp [subObjs] at hw
+theorem encodeL_subObjs : ∀ (vs : List PyVal) (w : PyVal), w ∈ subObjsL vs →
+    encode w ∈ subJsonsL (encodeList vs)
+  | [], w, hw => by simp [subObjsL] at hw
+  | v :: vs, w, hw => by
+    simp only [subObjsL, List.mem_append] at hw
+    rcases hw with hw | hw
+    · simp [encodeList, subJsonsL, encode_subObjs v w hw]
+    · simp [encodeList, subJsonsL, encodeL_subObjs vs w hw]
+theorem encodeFs_subObjs : ∀ (fs : List (Str × PyVal)) (w : PyVal), w ∈ subObjsFs fs →
+    encode w ∈ subJsonsKv (encodeFields fs)
+  | [], w, hw => by simp [subObjsFs] at hw
+  | (k, v) :: r, w, hw => by
+    simp only [subObjsFs, List.mem_append] at hw
+    by_cases hv : v = .none
+    · subst hv
+      simp only [subObjs, List.not_mem_nil, false_or] at hw
+      rw [encodeFields_cons_none]
+      exact encodeFs_subObjs r w hw
+    · rw [encodeFields_cons_ne k v r hv]
+      rcases hw with hw | hw
+      · simp [subJsonsKv, encode_subObjs v w hw]
+      · simp [subJsonsKv, encodeFs_subObjs r w hw]
+end
+
+/-- non-vacuity: a schema holding a list of nested schema instances; both the nested instance and the
+outer one show their own `@type` -/
+def stepTy : Ty := .model "Step".toList .allow [.mk "label".toList (.cstr .nes) true none]
+  [("@type".toList, .str "HowToStep".toList)]
+def protoTy : Ty := .model "Proto".toList .allow [.mk "steps".toList (.list stepTy) true none]
+  [("@type".toList, .str "HowTo".toList)]
+
+example : ConstsApart protoTy := by
+  intro n e fs cs h
+  simp only [protoTy, stepTy, InTy, InFs, InF, or_false] at h
+  rcases h with h | h <;> (injection h with _ _ hf hc; subst hf hc; decide)
+
+def stepVal : PyVal :=
+  .obj "Step".toList [("label".toList, .str "s1".toList)] [("@type".toList, .str "HowToStep".toList)] []
+def protoVal : PyVal :=
+  .obj "Proto".toList [("steps".toList, .list [stepVal])] [("@type".toList, .str "HowTo".toList)] []
+
+example : decode envEx protoTy (.obj [("steps".toList, .arr [.obj [("label".toList, .str "s1".toList),
+    ("@type".toList, .str "Other".toList)]])]) = .ok protoVal := by rfl
+example : stepVal ∈ subObjs protoVal := by
+  simp [protoVal, stepVal, subObjs, subObjsFs, subObjsL]
+example : lookup "@type".toList (dumped stepVal) = some (.str "HowToStep".toList) := by rfl
+
 end MetadorModel.C12
